@@ -11,13 +11,14 @@ import (
 
 // Byte classes as look-up tables (a table look-up on a symbolic byte does not fork).
 var (
-	tblBlank   [256]bool // space, tab
-	tblIdent   [256]bool // ASCII letters and '_'
-	tblStr     [256]bool // allowed inside a string literal: everything but '"', LF, CR
-	tblCmd     [256]bool // printable ASCII without '#', '{', '}'
-	tblCmdEdge [256]bool // tblCmd without blanks (last byte of a command)
-	tblLetter  [256]bool // ASCII letters (first byte of a command)
-	tblComment [256]bool // printable ASCII without blanks (first/last byte of a comment)
+	tblBlank      [256]bool // space, tab
+	tblIdent      [256]bool // ASCII letters and '_'
+	tblStr        [256]bool // allowed inside a string literal: everything but '"', LF, CR
+	tblCmd        [256]bool // printable ASCII without '#', '{', '}'
+	tblCmdEdge    [256]bool // tblCmd without blanks (last byte of a command)
+	tblLetter     [256]bool // ASCII letters (first byte of a command)
+	tblComment    [256]bool // first/last byte of a comment: anything but LF, CR, space, tab
+	tblCommentMid [256]bool // inside a comment: anything but LF, CR
 )
 
 func init() {
@@ -31,7 +32,8 @@ func init() {
 		printable := b >= 0x20 && b < 0x7f
 		tblCmd[c] = printable && b != '#' && b != '{' && b != '}'
 		tblCmdEdge[c] = tblCmd[c] && b != ' '
-		tblComment[c] = printable && b != ' '
+		tblCommentMid[c] = b != '\n' && b != '\r'
+		tblComment[c] = tblCommentMid[c] && b != ' ' && b != '\t'
 	}
 }
 
@@ -141,7 +143,7 @@ func (w *c06) args(spec string, size int, trailing bool) []c06Arg {
 }
 
 func (w *c06) comment(size int) string {
-	t := w.hole(size, &tblCmd, &tblComment, &tblComment)
+	t := w.hole(size, &tblCommentMid, &tblComment, &tblComment)
 	w.b.WriteString("#")
 	w.blanks(0)
 	w.b.WriteString(t)
@@ -273,6 +275,12 @@ func sameArgs(want []c06Arg, got []ast.Node, id string) {
 	}
 }
 
+// trimBlanks drops the spaces and tabs around a comment's text (the gap after '#' is layout), and
+// nothing else: a carriage return left in the text of a CRLF file is a different text. (The
+// comparison once used strings.TrimSpace, which hid exactly that: a seeded change that ended
+// comments at LF only went unnoticed, DESIGN.md 9.5.)
+func trimBlanks(s string) string { return strings.Trim(s, " \t") }
+
 // C06: parsing recovers exactly the structure written, in every admissible layout.
 func C06() {
 	shapes := strings.Split(sym.ParamStr("shape", "vs"), ";")
@@ -302,7 +310,7 @@ func C06() {
 				sym.Violation("C06/statement-kind", "")
 				continue
 			}
-			sym.Assert(strings.TrimSpace(n.Text) == st.text, "C06/comment-text")
+			sym.Assert(trimBlanks(n.Text) == st.text, "C06/comment-text")
 		case ast.Assign:
 			switch v := n.Value.(type) {
 			case ast.String:
@@ -329,7 +337,7 @@ func C06() {
 				continue
 			}
 			sym.Assert(n.Name.Name == st.name, "C06/task-name")
-			sym.Assert(strings.TrimSpace(n.Docstring.Text) == st.doc, "C06/docstring")
+			sym.Assert(trimBlanks(n.Docstring.Text) == st.doc, "C06/docstring")
 			sameArgs(st.deps, n.Dependencies, "C06/dependencies")
 			sameArgs(st.outs, n.Outputs, "C06/outputs")
 			if len(n.Commands) != len(st.cmds) {
